@@ -508,10 +508,20 @@ def s_fit_peaks(v):
         win = sc.array(dims=['x', 'range'], values=[[4.0, 8.0], [10.5, 15.5]], unit=xu)
     bg = ['linear', pm.PolynomialModel(degree=1, prefix='q_')][v // 4 % 2]
     pk = [pm.GaussianModel(prefix='zz'), ('gaussian', 'lorentzian')][v // 4 % 2]
+    if v >= 8:
+        # windows and estimates at the border of the data: explicit windows reaching beyond the coordinate range on either
+        # side, overlapping each other, a width wider than the data, an estimate outside the range
+        k = v - 8
+        est = sc.array(dims=['x'], values=[[6.1, 12.8], [1.0, 19.5], [6.1, 12.8], [-1.0, 6.1]][k % 4], unit=xu)
+        win = [sc.array(dims=['x', 'range'], values=[[-3.0, 8.0], [10.5, 25.0]], unit=xu), sc.array(dims=['x', 'range'], values=[[-2.0, 3.0], [17.0, 22.0]], unit=xu),
+               sc.scalar(50.0, unit=xu), sc.array(dims=['x', 'range'], values=[[-5.0, 2.0], [4.0, 8.0]], unit=xu)][k % 4]
+        if k // 4:
+            win = win.to(unit={'angstrom': 'nm', 'us': 'ms'}[str(xu)]) if str(xu) in ('angstrom', 'us') else win
+        bg, pk = 'linear', 'gaussian'
     return (lambda data, peak_estimates, windows, background, peak: fit_peaks(data, peak_estimates=peak_estimates, windows=windows, background=background, peak=peak)), {'data': da, 'peak_estimates': est, 'windows': win, 'background': bg, 'peak': pk}, str(v)
 
 
-s_fit_peaks.n = 8
+s_fit_peaks.n = 16
 
 
 def s_remove_peaks(v):
@@ -596,13 +606,25 @@ def s_nexus(v):
         'radius': sc.scalar(0.5, unit='m'),
         'top_dead_center': sc.DataGroup({'time': sc.array(dims=['time'], values=[1, 2], unit='s')}),
     })
+    if v >= 8:
+        # inputs the functions may refuse: a rotation speed without a frequency unit, angles without an angle unit.  Refusing
+        # or accepting, the caller's group and every field in it stay as they were.
+        k = v - 8
+        bad = [sc.scalar(14.0, unit=None), sc.scalar(14.0, unit='dimensionless'), sc.scalar(14.0, unit='m/s'), sc.scalar(14, unit=None)][k % 4]
+        if k // 4 % 2:
+            raw['beam_position'] = sc.scalar(45.0, unit=None)
+        else:
+            raw['rotation_speed'] = bad
+        if k // 8 == 0:
+            return (lambda chopper: DiskChopper.from_nexus(chopper)), {'chopper': raw}, f'from_nexus/refusable-{k}'
+        return (lambda chopper: DiskChopper.from_nexus(extract_chopper_from_nexus(chopper))), {'chopper': raw}, f'extract+from_nexus/refusable-{k}'
     if v // 4 % 2 == 0:
         return (lambda chopper: extract_chopper_from_nexus(chopper)), {'chopper': raw}, 'extract'
     processed = extract_chopper_from_nexus(raw)
     return (lambda chopper: DiskChopper.from_nexus(chopper).time_offset_open(pulse_frequency=sc.scalar(14.0, unit='Hz'))), {'chopper': processed}, 'from_nexus'
 
 
-s_nexus.n = 8
+s_nexus.n = 24
 
 
 OBJECT_SITES = {
